@@ -205,8 +205,7 @@ class C04(Check):
         sig0 = {"fault": fk if fk in ("intact", "trunc", "extend", "insert", "delete") else "bits", "region": region,
                 "base": "ref" if name.startswith("ref") else "py", "aes": "aes" in name}
         env.state["k"] += 1
-        work = os.path.join(env.scratch, "c4-%d" % env.state["k"])
-        os.makedirs(work)
+        work = env.tmpdir("c4-")  # unique: a replacement sandbox child must not collide with a killed one
         apath = os.path.join(work, "d.7z")
         with open(apath, "wb") as f:
             f.write(D)
